@@ -48,7 +48,7 @@ func FindConflicts(entries []RouteEntry) []Conflict {
 	seen := map[string]bool{}
 
 	for i := range entries {
-		entry := entries[i]
+		entry := &entries[i]
 		normPath := normalizePath(entry.Path)
 		newSegments := splitSegments(normPath)
 
@@ -78,10 +78,10 @@ func FindConflicts(entries []RouteEntry) []Conflict {
 		// endpoint (method-aware)
 		existing := curr.endpoint[entry.Method]
 		if existing != nil {
-			addConflict(&conflicts, seen, entry, *existing, "duplicate method/path combination")
+			addConflict(&conflicts, seen, entry, existing, "duplicate method/path combination")
 		} else {
 			// register endpoint for this method
-			curr.endpoint[entry.Method] = &entries[i]
+			curr.endpoint[entry.Method] = entry
 		}
 	}
 
@@ -174,7 +174,7 @@ func reportParamVsLiterals(
 	conflicts *[]Conflict,
 	seen map[string]bool,
 	curr *trieNode,
-	entry RouteEntry,
+	entry *RouteEntry,
 	newSegments []string,
 	seg string,
 ) {
@@ -198,7 +198,7 @@ func reportParamVsLiterals(
 				ep.Method,
 				ep.Path,
 			)
-			addConflict(conflicts, seen, entry, *ep, reason)
+			addConflict(conflicts, seen, entry, ep, reason)
 		}
 	}
 }
@@ -207,7 +207,7 @@ func reportParamVsParam(
 	conflicts *[]Conflict,
 	seen map[string]bool,
 	curr *trieNode,
-	entry RouteEntry,
+	entry *RouteEntry,
 	newSegments []string,
 	idx int,
 	seg string,
@@ -230,7 +230,7 @@ func reportParamVsParam(
 			ep.Method,
 			ep.Path,
 		)
-		addConflict(conflicts, seen, entry, *ep, reason)
+		addConflict(conflicts, seen, entry, ep, reason)
 	}
 }
 
@@ -238,7 +238,7 @@ func reportLiteralVsParam(
 	conflicts *[]Conflict,
 	seen map[string]bool,
 	curr *trieNode,
-	entry RouteEntry,
+	entry *RouteEntry,
 	newSegments []string,
 	idx int,
 	seg string,
@@ -261,23 +261,23 @@ func reportLiteralVsParam(
 			ep.Method,
 			ep.Path,
 		)
-		addConflict(conflicts, seen, entry, *ep, reason)
+		addConflict(conflicts, seen, entry, ep, reason)
 	}
 }
 
-func addConflict(out *[]Conflict, seen map[string]bool, a RouteEntry, b RouteEntry, reason string) {
-	aPath, bPath := a.Path, b.Path
+func addConflict(out *[]Conflict, seen map[string]bool, a *RouteEntry, b *RouteEntry, reason string) {
 	// canonical order
-	if aPath > bPath {
-		aPath, bPath = bPath, aPath
+	if a.Path > b.Path {
 		a, b = b, a
 	}
-	key := aPath + "||" + bPath + "||" + reason
+	// The same pair may be reached more than once while walking the trie.
+	// Entries are identified by their place in the list rather than their path - several entries may share a path
+	key := fmt.Sprintf("%p||%p||%s", a, b, reason)
 	if seen[key] {
 		return
 	}
 	seen[key] = true
-	*out = append(*out, Conflict{A: a, B: b, Reason: reason})
+	*out = append(*out, Conflict{A: *a, B: *b, Reason: reason})
 }
 
 func inPlaceSortConflicts(conflicts []Conflict) []Conflict {
